@@ -30,6 +30,7 @@ type Obligation struct {
 	Trivial bool
 	Cover  bool // a reachability/vacuity query: expected SAT
 	UseLemmas []string
+	Expand    map[string]bool // spec functions expanded in this query (lemma directive "expand")
 	// rendered query (see isolate.go)
 	built   bool
 	q, qAbs string
